@@ -549,6 +549,69 @@ func main() {
 		}
 	})
 
+	// ---- construction of the public-share maps handed to validatorapi and to the peer verifier
+	var shareSites []site
+	shareVars := map[string]bool{"allPubShares": true, "allPubSharesByKey": true}
+	walkConds(fn.Body, nil, func(m ast.Node, st []string) {
+		switch x := m.(type) {
+		case *ast.RangeStmt:
+			uses := false
+			ast.Inspect(x.Body, func(k ast.Node) bool {
+				if as, ok := k.(*ast.AssignStmt); ok {
+					for _, l := range as.Lhs {
+						if ix, ok := l.(*ast.IndexExpr); ok {
+							if id, ok := ix.X.(*ast.Ident); ok && shareVars[id.Name] {
+								uses = true
+							}
+						}
+					}
+				}
+
+				return true
+			})
+			if uses {
+				k, v := "_", "_"
+				if x.Key != nil {
+					k = text(x.Key)
+				}
+				if x.Value != nil {
+					v = text(x.Value)
+				}
+				shareSites = append(shareSites, site{what: "range", args: []string{k, v, text(x.X)}, conds: st})
+			}
+		case *ast.AssignStmt:
+			for i, l := range x.Lhs {
+				r := x.Rhs[0]
+				if len(x.Rhs) == len(x.Lhs) {
+					r = x.Rhs[i]
+				}
+				switch lx := l.(type) {
+				case *ast.IndexExpr:
+					if id, ok := lx.X.(*ast.Ident); ok && shareVars[id.Name] {
+						shareSites = append(shareSites, site{what: text(l), args: []string{text(r)}, conds: st})
+					}
+				case *ast.Ident:
+					if shareVars[lx.Name] || lx.Name == "pubshare" || lx.Name == "corePubkey" {
+						shareSites = append(shareSites, site{what: "assign " + lx.Name, args: []string{text(r)}, conds: st})
+					}
+				}
+			}
+		case *ast.CallExpr:
+			// the maps must not be handed to anything that could change them, other than the two consumers
+			for _, a := range x.Args {
+				if id, ok := a.(*ast.Ident); ok && shareVars[id.Name] {
+					f := text(x.Fun)
+					if f != "validatorapi.NewComponent" && f != "parsigex.NewEth2Verifier" && f != "make" && f != "len" {
+						fail(x, "%s is passed to %s: unknown shape", id.Name, f)
+					}
+				}
+			}
+		}
+	})
+	for _, d := range defs["allPubSharesByKey"] {
+		shareSites = append(shareSites, site{what: "declare allPubSharesByKey", args: []string{d.expr}})
+	}
+
 	// ---- beacon node clients: newETH2Client, configureEth2Client, eth2wrap.NewMultiHTTP
 	nec := findFunc(f, "newETH2Client")
 	cfg := findFunc(f, "configureEth2Client")
@@ -674,6 +737,7 @@ func main() {
 	b.WriteString("].\n")
 
 	b.WriteString("\n")
+	emitSites(&b, "app_pubshares_sites", shareSites)
 	emitSites(&b, "app_sse_subs", sseSites)
 	emitSites(&b, "app_cache_sites", cacheSites)
 	fmt.Fprintf(&b, "Definition app_neweth2_params : list string := %s.\n\n", qlist(paramNames(nec)))
